@@ -1,7 +1,95 @@
 (** C01 - AKAI export is byte-exact for every sector allocation and file length.
-    Property theorems only (first version: see AkaiProofs.v as it grows). *)
-From SE Require Import Base Codecs Fat Cue Names Transcode AkaiImage.
+    Property theorems only.  The whole-image model [akai_export] (AkaiImage.v) computes with
+    LOGICAL contents; the theorems below tie those contents to the byte-window views the real
+    code reads through (C08), to the allocation chains (C07) and to the transcoder (C12), for
+    every chain order and every length.  The composition over a whole image (partition scan,
+    volume table, file table, naming, pairing) is carried by the end-to-end correspondence:
+    akai_export against the real `export` on every generated image. *)
+From SE Require Import Base Codecs Fat Cue Names Transcode Stream FatProofs StreamProofs
+     TranscodeProofs TranscodeUnbounded NamesProofs AkaiImage AkaiProofs.
 
-(** Non-vacuity of the whole-image model: the partition magic is the 97 words 3333*i. *)
-Example c01_magic_len : length MAGIC = 194%nat.
-Proof. vm_compute. reflexivity. Qed.
+(** A file read the way the real code reads it - StreamWrapper(size) over the sector-chained
+    Segment over the partition window over the image file - is a well-formed view (so the C08
+    theorem applies: under ANY seek/read history it behaves as an ordinary file over its
+    logical content), and its logical content is what the model computes: the sectors of the
+    chain concatenated IN CHAIN ORDER, whatever their numbers (contiguous, fragmented,
+    backwards), cut at the directory's size. *)
+Theorem akai_file_view_content :
+  forall img p secs fsize,
+    part_ok img p -> chain_in_part p secs -> secs <> [] -> 0 < fsize <= SECTOR * zlen secs ->
+    wf (file_view p secs fsize) img /\
+    logical (file_view p secs fsize) img = wrap_size (segment_content (part_content img p) secs) fsize.
+Proof.
+  intros img p secs fsize H1 H2 H3 H4. split.
+  - now apply file_view_wf_lemma.
+  - now apply file_view_logical_lemma.
+Qed.
+Print Assumptions akai_file_view_content.
+
+(** ...hence every read history on the real file object returns the model's bytes. *)
+Theorem akai_file_reads_exact :
+  forall img p secs fsize ops s,
+    part_ok img p -> chain_in_part p secs -> secs <> [] -> 0 < fsize <= SECTOR * zlen secs ->
+    StreamProofs.good (file_view p secs fsize) s -> Forall op_ok ops ->
+    fst (run (file_view p secs fsize) img s ops)
+    = ref_run (wrap_size (segment_content (part_content img p) secs) fsize) (v_tell s) ops.
+Proof.
+  intros img p secs fsize ops s H1 H2 H3 H4 Hg Ho.
+  rewrite <- (file_view_logical_lemma img p secs fsize H1 H2 H4).
+  unfold file_view. apply view_refines_file_lemma; try assumption.
+  now apply file_view_wf_lemma.
+Qed.
+Print Assumptions akai_file_reads_exact.
+
+(** The data window of a sample: StreamOffset(140 + 2*start, 2*(end-start)) over that file
+    holds exactly the 16-bit words between the start and end markers - also when the file
+    (140-byte header + data) fills its last sector exactly: no hypothesis relates the size to
+    the sector boundary. *)
+Theorem akai_sample_window :
+  forall img p secs fsize st en,
+    part_ok img p -> chain_in_part p secs -> 0 < fsize <= SECTOR * zlen secs ->
+    0 <= st < en -> SAMPLE_HDR + 2 * en <= fsize ->
+    logical (data_view p secs fsize st en) img
+    = slice (wrap_size (segment_content (part_content img p) secs) fsize) (SAMPLE_HDR + 2 * st) (SAMPLE_HDR + 2 * en).
+Proof. exact data_view_logical_lemma. Qed.
+Print Assumptions akai_sample_window.
+
+(** The model's sample parser takes exactly that window as the sample's PCM. *)
+Theorem akai_sample_pcm :
+  forall e s, parse_sample e = Some s ->
+    sm_start s = u32 (fe_content e) 30 /\ sm_end s = u32 (fe_content e) 34 /\
+    (sm_start s < sm_end s ->
+     sm_pcm s = slice (fe_content e) (SAMPLE_HDR + 2 * sm_start s) (SAMPLE_HDR + 2 * sm_end s)).
+Proof. exact parse_sample_pcm_lemma. Qed.
+Print Assumptions akai_sample_pcm.
+
+(** The written audio: a mono sample's PCM is written unchanged, for every length and every
+    internal block size; an L/R pair of equal length is written as the frame-by-frame
+    interleaving, left first. *)
+Theorem akai_mono_export_pcm :
+  forall target s, zlen (sm_pcm s) mod 2 = 0 -> transcode target [src_of s] 2 1 = Ok (sm_pcm s).
+Proof. exact mono_export_even_lemma. Qed.
+Print Assumptions akai_mono_export_pcm.
+Theorem akai_pair_export_pcm :
+  forall target l r F, zlen (sm_pcm l) = 2 * F -> zlen (sm_pcm r) = 2 * F ->
+    transcode target [src_of l; src_of r] 2 2 = Ok (interleave2 (sm_pcm l) (sm_pcm r)).
+Proof. exact pair_export_pcm_lemma. Qed.
+Print Assumptions akai_pair_export_pcm.
+
+(** The rate written is the header's, 44100 when stored as 0. *)
+Theorem akai_rate_default : forall s, sm_rate s = if sm_rate_raw s =? 0 then 44100 else sm_rate_raw s.
+Proof. reflexivity. Qed.
+
+(** Non-vacuity: a 2-sector file stored BACKWARDS (sectors [6;5]) in a 8-sector partition at
+    offset 8192 of a 9-sector image: hypotheses hold, and the content is sector 6 then 5. *)
+Example c01_example :
+  let img := concat (map (fun k => zrepeat (Z.of_nat k) 8192) (seq 0 9)) in
+  let p := {| p_off := 8192; p_sectors := 8; p_vols := []; p_sat := [] |} in
+  part_ok img p /\ chain_in_part p [6; 5] /\
+  map (fun i => znth 0 (wrap_size (segment_content (part_content img p) [6; 5]) 8200) i) [0; 8191; 8192; 8199] = [7; 7; 6; 6].
+Proof.
+  cbv zeta. split; [|split].
+  - unfold part_ok. cbn [p_off p_sectors]. split; [lia|]. split; [lia|]. vm_compute. discriminate.
+  - repeat constructor; cbn; lia.
+  - vm_compute. reflexivity.
+Qed.
